@@ -19,6 +19,7 @@ import (
 
 	"github.com/Cloud-Foundations/keymaster/lib/instrumentedwriter"
 	"github.com/Cloud-Foundations/keymaster/lib/webapi/v0/proto"
+	"github.com/pquerna/otp"
 	"github.com/pquerna/otp/totp"
 )
 
@@ -355,6 +356,22 @@ const minSecsBetweenTOTPValidations = 2
 const numHoursForLocalTOTPRateLimitReset = 24
 const numFailedTOTPChecksForTimeoutIncrease = 5
 
+// matchTOTPCounter returns the counter (time step) for which the OTP value is
+// the valid one. Like totp.Validate it accepts the current step and its two
+// neighbours (clock skew). Returns false if there is no match.
+func matchTOTPCounter(OTPString string, secret string, counter int64, period int64) (int64, bool) {
+	for _, candidate := range []int64{counter, counter - 1, counter + 1} {
+		valid, err := totp.ValidateCustom(OTPString, secret,
+			time.Unix(candidate*period, 0),
+			totp.ValidateOpts{Period: uint(period), Skew: 0,
+				Digits: otp.DigitsSix, Algorithm: otp.AlgorithmSHA1})
+		if err == nil && valid {
+			return candidate, true
+		}
+	}
+	return 0, false
+}
+
 // This function is the one actually validating the TOTP values, returns err non nil
 // if there is a problem with the internal state. Returns true if the previous OTP success
 // for this user is NOT on this period AND one of the otp values matches the one of the user's
@@ -415,12 +432,18 @@ func (state *RuntimeState) validateUserTOTP(username string, OTPValue int, t tim
 			return false, err
 		}
 
-		valid := totp.Validate(OTPString, string(clearTextKey))
+		matchedCounter, valid := matchTOTPCounter(OTPString, string(clearTextKey), counter, defaultPeriod)
 		if !valid {
 			continue
 		}
+		// An OTP value is only good once: never accept a value for a time
+		// step that is not after the one of the last accepted value
+		if matchedCounter <= profile.LastSuccessfullTOTPCounter {
+			logger.Printf("validateUserTOTP: OTP value already used (or older than last used)")
+			continue
+		}
 		if !fromCache {
-			profile.LastSuccessfullTOTPCounter = counter
+			profile.LastSuccessfullTOTPCounter = matchedCounter
 			err = state.SaveUserProfile(username, profile)
 			if err != nil {
 				logger.Printf("Saving profile error: %v", err)
